@@ -252,9 +252,18 @@ def rule_ar1(A: Analysis, rep):
     if len(col) == 1:
         call_ = [x for x in walk_local(col[0].ast) if isinstance(x, ast.Call) and A.res.is_call_to(x, "VersionIndex.create_or_load")][0]
         pth = norm(call_.args[0]) if call_.args else "?"
-        unl = [n for n in g.nodes if n.kind == "stmt" and norm(n.ast) in ("%s.unlink(missing_ok=True)" % pth,)]
-        before = [u for u in unl if g.all_paths_pass(g.entry, col[0], [u], skip_labels=skip) and not g.reachable(col[0], u, skip_labels=skip)]
-        ok3 = bool(before)
+        def _is_del(x):
+            if not isinstance(x, ast.Call):
+                return False
+            if isinstance(x.func, ast.Attribute) and x.func.attr == "unlink" and norm(x.func.value) == pth:
+                return True
+            return norm(x.func) in ("os.remove", "os.unlink") and x.args and norm(x.args[0]) in (pth, "str(%s)" % pth)
+        unl = [n for n in g.nodes if n.kind in ("stmt", "with") and n.ast is not None and any(_is_del(x) for x in walk_local(n.ast))]
+        # "the file does not exist" edges of an existence test on the same path count as well
+        absent = [(n, "F") for n in g.nodes if n.kind == "test" and n.ast is not None and norm(n.ast) in ("%s.exists()" % pth, "%s.is_file()" % pth, "os.path.exists(%s)" % pth)]
+        unl = [u for u in unl if not g.reachable(col[0], u, skip_labels=skip)]
+        r = g.reach([g.entry], removed=unl, skip_labels=skip, removed_edges=absent)
+        ok3 = bool(unl) and col[0] not in r
         det3 = ("`%s` is loaded by create_or_load() without having been removed first: rows left in a stale archive index (a killed `cond archive`) "
                 "would be archived too" % pth)
     rep.check(ok3, "AR3", "the archive index starts empty", fi.node, "the index file is unlinked before create_or_load()", det3)
